@@ -203,6 +203,29 @@ func (im *Image) Samples() []int {
 		for i := range out {
 			out[i] = set[r.intn(len(set))]
 		}
+	case "nearruns": // flat stretches disturbed by exactly Par, Par+1 or Par-1 (run/regular boundary of JPEG-LS)
+		cur := lo + r.intn(rng)
+		for y := 0; y < im.H; y++ {
+			for x := 0; x < im.W; x++ {
+				if r.intn(12) == 0 {
+					cur = lo + r.intn(rng)
+				}
+				for c := 0; c < im.C; c++ {
+					v := cur
+					switch r.intn(8) {
+					case 0:
+						v = cur + im.Par
+					case 1:
+						v = cur - im.Par
+					case 2:
+						v = cur + im.Par + 1
+					case 3:
+						v = cur - im.Par - 1
+					}
+					out[(y*im.W+x)*im.C+c] = clampv(v)
+				}
+			}
+		}
 	case "nearedge": // samples within Par of the range ends
 		for i := range out {
 			d := r.intn(im.Par + 2)
